@@ -6,8 +6,17 @@
 // BlockHeaderLatest call parks on a gate; a rapid-drawn script decides which parked request is
 // answered next and how (correct block of the CURRENT source chain, injected error, corrupted
 // copy, stale head) and mutates the source chain between answers (extend, reorg, shorten).
+// The script also owns the timing of the store step's tail: it can arm a hold, the next store
+// step then blocks in the public EventListener hook OnSyncStepDone(OpStore) (block committed,
+// notifications and plugin call not yet made) until the script releases it; meanwhile the script
+// keeps mutating the source and answering parked requests. A hold is bounded (released by the
+// script, at the end of the script, when nothing is parked, on cancellation, or by a real-time
+// guard that only ever yields "inconclusive").
 // Observation: a plugin.JunoPlugin (called synchronously after every store / before every
 // revert), the sync.EventListener, the new-heads and reorg feeds, and the Blockchain reader.
+// The two feeds are made lossless where possible: the plugin's NewBlock (called by the store step
+// after its notifications were sent) waits, bounded, until the feed readers have received them; if
+// that ever fails the case falls back to the lossy (subsequence) assertions only.
 // Go-runtime scheduling inside the pipeline is not owned: all oracles are schedule independent
 // (invariants over the recorded history, monotone facts about the source), wall-clock guards only
 // ever yield "inconclusive".
@@ -18,6 +27,7 @@ import (
 	"encoding/json"
 	"errors"
 	"fmt"
+	"os"
 	"runtime"
 	"sort"
 	"strings"
@@ -61,6 +71,8 @@ const (
 	livelockBound = 5000 // correctly answered requests without any store/revert while the chains differ
 	wallGuard     = 180 * time.Second
 	frozenBackoff = 100 * time.Microsecond // the frozen source's "not found"/latest answers model the client's back-off
+	holdGuard     = 60 * time.Second       // real-time bound of a held store step: harness safety net, never a verdict
+	feedGuard     = 500 * time.Millisecond // bound of the wait for the feed readers in NewBlock: on expiry the case is "lossy"
 )
 
 var (
@@ -119,7 +131,27 @@ type event struct {
 	hash felt.Felt
 }
 
-type counters struct{ arrivals, cancels, events, persisted, heads, answered int }
+type counters struct{ arrivals, cancels, events, persisted, heads, answered, holds int }
+
+const (
+	armAny = 1
+	armTip = 2
+)
+
+// hold is a store step blocked in OnSyncStepDone(OpStore): block num is committed, its
+// notifications and the plugin's NewBlock have not been made yet.
+type hold struct {
+	num uint64
+	ch  chan struct{}
+}
+
+// note is a notification received from one of the two feeds.
+type note struct {
+	reorg  *jsync.ReorgBlockRange // nil for a new-head notification
+	num    uint64
+	hash   felt.Felt
+	parent felt.Felt
+}
 
 // env is the source, the gate and the recorder. One mutex orders everything: source mutations,
 // answers, and the node's synchronous callbacks, so "canonical at the time of the revert" is a
@@ -158,6 +190,25 @@ type env struct {
 	heads         []felt.Felt
 	reorgs        []jsync.ReorgBlockRange
 	hist          []string
+
+	// schedule control of the store step's tail
+	holdArmed        int // 0 = no, armAny = the next store step, armTip = the next store step that brings the node level with the source
+	held             *hold
+	holdsStarted     int
+	holdTimeouts     int
+	lastHeldNum      uint64
+	lastHeldEvIdx    int // index in events at which the held block's store will be recorded; -1 = none
+	heldThenReverted int
+	reorgSeenWhileHeld int // reorg checks answered, while a store step is held, with a head that differs from the node's block
+
+	// announced chain: what a subscriber of both feeds knows (starts as the chain at subscription time)
+	ann          []felt.Felt
+	nbuf         []note
+	lossy        bool // a notification was not received in time once: only the lossy assertions remain
+	nStores      int
+	openRange    bool // blocks were reverted since the last store
+	openStart    uint64
+	closedRanges int
 }
 
 func (e *env) logf(f string, a ...any) {
@@ -332,6 +383,13 @@ func (e *env) answerReq(id int, how string, tm *tamper, stale *core.Header) bool
 			desc += " -> " + a.err.Error()
 		case a.hdr != nil:
 			desc += fmt.Sprintf(" -> head #%d %s", a.hdr.Number, short(a.hdr.Hash))
+			if e.held != nil && !r.poll && a.hdr.Number <= e.held.num {
+				// a reorg check (isReverting) gets its answer while the store step of the node's head is held
+				if lh, err := e.bc.BlockHeaderByNumber(a.hdr.Number); err == nil && !lh.Hash.Equal(a.hdr.Hash) {
+					e.reorgSeenWhileHeld++
+					desc += "  (differs from the node's block at that height while the store step of #" + fmt.Sprint(e.held.num) + " is held)"
+				}
+			}
 		default:
 			desc += fmt.Sprintf(" -> block #%d %s parent %s", a.cb.Block.Number, short(a.cb.Block.Hash), short(a.cb.Block.ParentHash))
 			if tm != nil {
@@ -383,9 +441,21 @@ func (p plug) Shutdown() error { return nil }
 
 func (p plug) NewBlock(block *core.Block, su *core.StateUpdate, classes map[felt.Felt]core.ClassDefinition) error {
 	e := p.e
+	e.awaitFeeds()
 	e.mu.Lock()
 	defer e.mu.Unlock()
 	e.logf("  node STORE #%d %s parent %s", block.Number, short(block.Hash), short(block.ParentHash))
+	// notification stream first: the stored block is the announced head by now
+	e.flushNotes()
+	if !e.lossy && (uint64(len(e.ann)) != block.Number+1 || !e.ann[block.Number].Equal(block.Hash)) {
+		e.violate("stored-block-not-announced", "block #%d %s is stored (plugin NewBlock) and every notification sent so far has been received, but the announced chain (new-head/reorg notifications replayed) has %d blocks and its head is %s",
+			block.Number, short(block.Hash), len(e.ann), shortLast(e.ann))
+	}
+	e.nStores++
+	if e.openRange {
+		e.openRange = false
+		e.closedRanges++
+	}
 	ent, ok := e.ever[*block.Hash]
 	switch {
 	case !ok:
@@ -415,6 +485,16 @@ func (p plug) RevertBlock(from, to *junoplugin.BlockAndStateUpdate, _ *core.Stat
 	b := from.Block
 	canonical := b.Number < uint64(len(e.chain.Blocks)) && e.chain.Blocks[b.Number].B.Hash.Equal(b.Hash)
 	e.logf("  node REVERT #%d %s (canonical in source now: %v)", b.Number, short(b.Hash), canonical)
+	// notification stream first: a block is never reverted before subscribers were told about it
+	e.flushNotes()
+	if !e.lossy && (b.Number >= uint64(len(e.ann)) || !e.ann[b.Number].Equal(b.Hash)) {
+		e.violate("reverted-before-announced", "node reverts block #%d %s (plugin RevertBlock) whose new-head notification has not been emitted: announced chain has %d blocks, head %s",
+			b.Number, short(b.Hash), len(e.ann), shortLast(e.ann))
+	}
+	e.openRange, e.openStart = true, b.Number
+	if e.lastHeldEvIdx >= 0 && len(e.events) == e.lastHeldEvIdx+1 && e.events[e.lastHeldEvIdx].kind == 'S' && e.events[e.lastHeldEvIdx].hash.Equal(b.Hash) {
+		e.heldThenReverted++
+	}
 	if len(e.stack) == 0 || !e.stack[len(e.stack)-1].Equal(b.Hash) || b.Number != uint64(len(e.stack)-1) {
 		e.violate("revert-not-head", "node reverts #%d %s which is not its head (local len %d)", b.Number, short(b.Hash), len(e.stack))
 	} else {
@@ -443,10 +523,162 @@ func (p plug) RevertBlock(from, to *junoplugin.BlockAndStateUpdate, _ *core.Stat
 type listener struct{ e *env }
 
 func (l listener) OnSyncStepDone(op string, num uint64, _ time.Duration) {
-	if op == jsync.OpStore {
-		l.e.mu.Lock()
-		l.e.storeSteps++
-		l.e.mu.Unlock()
+	if op != jsync.OpStore {
+		return
+	}
+	e := l.e
+	e.mu.Lock()
+	e.storeSteps++
+	var h *hold
+	if !e.frozen && e.held == nil && (e.holdArmed == armAny || e.holdArmed == armTip && num+1 == uint64(len(e.chain.Blocks))) {
+		e.holdArmed = 0
+		h = &hold{num: num, ch: make(chan struct{})}
+		e.held = h
+		e.holdsStarted++
+		e.logf("  node STORE STEP of #%d HELD (block committed, notifications and plugin call pending)   [source len %d]", num, len(e.chain.Blocks))
+	}
+	e.mu.Unlock()
+	if h == nil {
+		return
+	}
+	t := time.NewTimer(holdGuard)
+	timedOut := false
+	select {
+	case <-h.ch:
+	case <-e.rootCtx.Done():
+	case <-t.C:
+		timedOut = true
+	}
+	t.Stop()
+	e.mu.Lock()
+	if e.held == h {
+		e.noteRelease(h, "guard/cancel")
+	}
+	if timedOut {
+		e.holdTimeouts++
+	}
+	e.mu.Unlock()
+}
+
+// noteRelease records the end of a hold (caller holds the lock).
+func (e *env) noteRelease(h *hold, why string) {
+	e.held = nil
+	e.lastHeldNum, e.lastHeldEvIdx = h.num, len(e.events)
+	e.logf("  store step of #%d RELEASED (%s)", h.num, why)
+}
+
+// release ends the current hold, if any, and optionally disarms. It reports whether a step was held.
+func (e *env) release(why string, disarm bool) bool {
+	e.mu.Lock()
+	defer e.mu.Unlock()
+	if disarm {
+		e.holdArmed = 0
+	}
+	h := e.held
+	if h == nil {
+		return false
+	}
+	e.noteRelease(h, why)
+	close(h.ch)
+	return true
+}
+
+func (e *env) arm(kind int) {
+	e.mu.Lock()
+	e.holdArmed = kind
+	if kind == armTip {
+		e.logf("SCRIPT arms a hold: the next store step that brings the node level with the source blocks after its commit")
+	} else {
+		e.logf("SCRIPT arms a hold: the next store step blocks after its commit")
+	}
+	e.mu.Unlock()
+}
+
+func shortLast(a []felt.Felt) string {
+	if len(a) == 0 {
+		return "none"
+	}
+	return fmt.Sprintf("#%d %s", len(a)-1, short(&a[len(a)-1]))
+}
+
+// awaitFeeds is called at the start of the plugin's NewBlock, i.e. by the store step after it has
+// sent its notifications: it waits (bounded) until the feed readers have received one new-head
+// notification per stored block and one reorg notification per reverted range, which empties the
+// feeds' one-slot buffers, so nothing is ever dropped. If the wait expires (a notification was
+// dropped or is emitted later than the plugin call) the case is marked lossy and only the
+// assertions that hold for a lossy subscriber are made.
+func (e *env) awaitFeeds() {
+	e.mu.Lock()
+	wantH, wantG, skip := e.nStores+1, e.closedRanges, e.lossy
+	if e.openRange {
+		wantG++
+	}
+	e.mu.Unlock()
+	if skip {
+		return
+	}
+	startT := time.Now()
+	for i := 0; ; i++ {
+		e.mu.Lock()
+		ok := len(e.heads) >= wantH && len(e.reorgs) >= wantG
+		e.mu.Unlock()
+		if ok {
+			return
+		}
+		if i < 64 {
+			runtime.Gosched()
+		} else {
+			time.Sleep(20 * time.Microsecond)
+		}
+		if i&0x3f == 0x3f && time.Since(startT) > feedGuard {
+			e.mu.Lock()
+			e.lossy = true
+			e.logf("  (feeds: %d/%d new-head and %d/%d reorg notifications received %v after the store step sent them: lossy from here on)", len(e.heads), wantH, len(e.reorgs), wantG, feedGuard)
+			e.mu.Unlock()
+			return
+		}
+	}
+}
+
+// flushNotes replays the notifications received since the last plugin call on the announced chain
+// (caller holds the lock). The feeds are separate channels, so the relative order of a reorg and a
+// new-head notification received in the same window is not observable: reorgs are applied first,
+// which is the only order a correct stream can have (a reorg is emitted with the next new head).
+func (e *env) flushNotes() {
+	buf := e.nbuf
+	e.nbuf = nil
+	if e.lossy {
+		return
+	}
+	for _, n := range buf {
+		if n.reorg == nil {
+			continue
+		}
+		r, l := n.reorg, uint64(len(e.ann))
+		if !(l > 0 && r.EndBlockNum == l-1 && r.EndBlockHash.Equal(&e.ann[l-1]) && r.StartBlockNum <= r.EndBlockNum && r.StartBlockHash.Equal(&e.ann[r.StartBlockNum])) {
+			e.violate("reorg-notification-not-announced-suffix", "reorg notification start #%d %s end #%d %s is not a suffix of the announced chain (%d blocks, head %s)",
+				r.StartBlockNum, short(r.StartBlockHash), r.EndBlockNum, short(r.EndBlockHash), l, shortLast(e.ann))
+		}
+		if r.StartBlockNum <= l {
+			e.ann = e.ann[:r.StartBlockNum]
+		}
+	}
+	for _, n := range buf {
+		if n.reorg != nil {
+			continue
+		}
+		l := uint64(len(e.ann))
+		wantParent := &felt.Zero
+		if l > 0 {
+			wantParent = &e.ann[l-1]
+		}
+		if n.num != l || !n.parent.Equal(wantParent) {
+			e.violate("new-head-not-extending-announced-chain", "new-head notification #%d %s (parent %s) does not extend the announced chain (%d blocks, head %s) and no reorg notification removed the difference",
+				n.num, short(&n.hash), short(&n.parent), l, shortLast(e.ann))
+		}
+		if n.num <= l {
+			e.ann = append(e.ann[:n.num:n.num], n.hash)
+		}
 	}
 }
 
@@ -477,12 +709,14 @@ func (e *env) onHead(b *core.Block) {
 		e.violate("head-notified-before-store", "new-head notification for #%d %s received while the block is neither stored nor reverted (%v)", b.Number, short(b.Hash), err)
 	}
 	e.heads = append(e.heads, *b.Hash)
+	e.nbuf = append(e.nbuf, note{num: b.Number, hash: *b.Hash, parent: *b.ParentHash})
 }
 
 func (e *env) onReorg(r *jsync.ReorgBlockRange) {
 	e.mu.Lock()
 	defer e.mu.Unlock()
 	e.reorgs = append(e.reorgs, *r)
+	e.nbuf = append(e.nbuf, note{reorg: r})
 	e.logf("  feed REORG start #%d %s end #%d %s", r.StartBlockNum, short(r.StartBlockHash), r.EndBlockNum, short(r.EndBlockHash))
 }
 
@@ -562,7 +796,7 @@ type rig struct {
 
 // start builds the node (pre-loaded with the first `have` blocks of the chain) and starts the synchronizer.
 func start(u *gen.Universe, ch *gen.Chain, newState bool, have int) *rig {
-	e := &env{u: u, chain: ch, ever: map[felt.Felt]*everEntry{}, revertedEver: map[felt.Felt]bool{}}
+	e := &env{u: u, chain: ch, ever: map[felt.Felt]*everEntry{}, revertedEver: map[felt.Felt]bool{}, lastHeldEvIdx: -1}
 	e.register(ch.Blocks)
 	nd := node.New(newState, nil, u.Net)
 	for _, b := range ch.Blocks[:have] {
@@ -570,6 +804,7 @@ func start(u *gen.Universe, ch *gen.Chain, newState bool, have int) *rig {
 			stats.HarnessError("pre-loading block %d: %v", b.Num(), err)
 		}
 		e.stack = append(e.stack, *b.B.Hash)
+		e.ann = append(e.ann, *b.B.Hash)
 	}
 	e.bc = nd.BC
 	ctx, cancel := context.WithCancel(context.Background())
@@ -604,6 +839,7 @@ func (r *rig) stop() {
 		return
 	}
 	r.stopped = true
+	r.e.release("stop", true)
 	r.cancel()
 	select {
 	case <-r.done:
@@ -624,6 +860,11 @@ func (r *rig) history() string {
 
 // poll drains the Persisted channels of delivered blocks and returns the counters.
 func (e *env) poll() (counters, int) {
+	c, n, _ := e.pollHeld()
+	return c, n
+}
+
+func (e *env) pollHeld() (counters, int, bool) {
 	e.mu.Lock()
 	defer e.mu.Unlock()
 	kept := e.dlv[:0]
@@ -642,19 +883,24 @@ func (e *env) poll() (counters, int) {
 		}
 	}
 	e.dlv = kept
-	return counters{e.arrivals, e.cancels, len(e.events), e.persistedSeen, len(e.heads), e.answered}, len(e.pending)
+	return counters{e.arrivals, e.cancels, len(e.events), e.persistedSeen, len(e.heads), e.answered, e.holdsStarted}, len(e.pending), e.held != nil
 }
 
 // settle waits (bounded polling on counters) until the node has reacted to the last answer and
 // parked again, or shows no reaction for a while (legitimate: e.g. an answered fetcher whose
-// result queues behind a lower height). false = wall-clock guard hit (inconclusive).
+// result queues behind a lower height). While a store step is held the pipeline can be completely
+// blocked behind it with nothing parked: that also counts as settled (the script then releases).
+// false = wall-clock guard hit (inconclusive).
 func (r *rig) settle(prev counters, expectReaction bool) bool {
 	const quiet, patience = 6, 50
 	startT := time.Now()
-	last, np := r.e.poll()
+	last, np, held := r.e.pollHeld()
 	changed := last != prev
 	stable, idle := 0, 0
 	for it := 0; ; it++ {
+		if np == 0 && held && idle >= patience {
+			return true
+		}
 		if np >= 1 {
 			if changed && stable >= quiet {
 				return true
@@ -664,8 +910,8 @@ func (r *rig) settle(prev counters, expectReaction bool) bool {
 			}
 		}
 		time.Sleep(50 * time.Microsecond)
-		cur, n := r.e.poll()
-		np = n
+		cur, n, h := r.e.pollHeld()
+		np, held = n, h
 		if cur != last {
 			changed, stable, last = true, 0, cur
 		} else {
@@ -693,12 +939,17 @@ type view struct {
 	staleAll  []*core.Header
 	staleSafe []*core.Header // stale heads that are still on the canonical chain
 	viol      string
+	held      int // number of the block whose store step is held, -1 = none
+	armed     bool
 }
 
 func (e *env) view() view {
 	e.mu.Lock()
 	defer e.mu.Unlock()
-	v := view{srcLen: len(e.chain.Blocks), localLen: len(e.stack), viol: e.violKey}
+	v := view{srcLen: len(e.chain.Blocks), localLen: len(e.stack), viol: e.violKey, held: -1, armed: e.holdArmed != 0}
+	if e.held != nil {
+		v.held = int(e.held.num)
+	}
 	for _, r := range e.pending {
 		v.pending = append(v.pending, pview{r.id, r.kind, r.num, r.poll})
 	}
@@ -759,6 +1010,7 @@ func (r *rig) failIfViolated(c *stats.Case) {
 // correctly answered requests without any store/revert; the wall clock only yields inconclusive.
 func (r *rig) freezeAndConverge(c *stats.Case, bound int) outcome {
 	e := r.e
+	e.release("source frozen", true)
 	e.mu.Lock()
 	e.frozen = true
 	e.logf("SOURCE frozen: len %d tip %s; answering %d parked requests", len(e.chain.Blocks), short(e.chain.Blocks[len(e.chain.Blocks)-1].B.Hash), len(e.pending))
@@ -871,6 +1123,38 @@ func (r *rig) finalOracles(c *stats.Case, newState bool) {
 	if len(expect) > 0 {
 		c.Label("reorg-ranges>=1")
 	}
+	// 2b. lossless subscriber: the announced chain (every notification replayed, see flushNotes) ends as the stored chain,
+	// one new-head notification per stored block and one reorg notification per reverted range
+	e.mu.Lock()
+	e.flushNotes()
+	lossy, ann := e.lossy, append([]felt.Felt{}, e.ann...)
+	if e.openRange && e.openStart < uint64(len(ann)) {
+		ann = ann[:e.openStart] // reverts not yet followed by a store: their notification is due with the next new head
+	}
+	closed, v2k, v2m := e.closedRanges, e.violKey, e.violMsg
+	e.mu.Unlock()
+	if v2k != "" {
+		c.Violation(v2k, "%s\n--- history\n%s", v2m, hist())
+	}
+	if lossy {
+		c.Label("feeds-lossy(announced-chain oracles off)")
+	} else {
+		c.Label("feeds-lossless")
+		same := len(ann) == len(e.stack)
+		for i := 0; same && i < len(ann); i++ {
+			same = ann[i].Equal(&e.stack[i])
+		}
+		if !same {
+			c.Violation("announced-chain-differs-from-stored-chain", "after the synchronizer stopped the announced chain (%d blocks, head %s) differs from the stored chain (%d blocks, head %s)\n%s",
+				len(ann), shortLast(ann), len(e.stack), shortLast(e.stack), hist())
+		}
+		if len(e.heads) != nStores {
+			c.Violation("new-heads-not-once-per-store", "no notification was dropped, yet %d new-head notifications were received for %d stored blocks\n%s", len(e.heads), nStores, hist())
+		}
+		if len(e.reorgs) != closed {
+			c.Violation("reorg-notifications-not-once-per-range", "no notification was dropped, yet %d reorg notifications were received for %d reverted ranges that were followed by a store\n%s", len(e.reorgs), closed, hist())
+		}
+	}
 	// 3. the node is observationally identical to a node that stored the source chain directly
 	if !e.converged() {
 		c.Violation("diverged-after-convergence", "node chain differs from the frozen source chain after the synchronizer stopped\n%s", hist())
@@ -900,7 +1184,7 @@ func TestRaceSyncConvergesUnderScriptedSource(t *testing.T) {
 	defer runtime.GOMAXPROCS(runtime.GOMAXPROCS(0))
 	known := stats.Known(kfRevert)
 	stats.Check(t, stats.Budget{Quick: 45, Thorough: 450},
-		"real Synchronizer+Blockchain (either backend, GOMAXPROCS 2-4 => 1-4 fetchers, node pre-loaded with 0..all blocks) against a gated DataSource; rapid script of 5-50 steps: answer any parked request (ok of the CURRENT chain / injected error / one of 11 corruptions / stale head) or mutate the source (extend 1-3, reorg of any depth incl. genesis, shorten); then frozen source, convergence decided by request count; oracles over the plugin/listener/feed history; non-trivial = reorg or shorten lands while >=1 request is parked, or a fetch error answered when remote height = local height, or a corrupted block served",
+		"real Synchronizer+Blockchain (either backend, GOMAXPROCS 2-4 => 1-4 fetchers, node pre-loaded with 0..all blocks) against a gated DataSource; rapid script of 5-50 steps: answer any parked request (ok of the CURRENT chain / injected error / one of 11 corruptions / stale head) or mutate the source (extend 1-3, reorg of any depth incl. genesis, shorten), or arm a hold (the next store step blocks in the public listener hook OnSyncStepDone(OpStore) after its commit, before its notifications) / release it; while a step is held the script goes on answering and mutating, with a bias towards reorgs at or just below the held height that leave the source as long as the node (+-1); then frozen source, convergence decided by request count; oracles over the plugin/listener/feed history incl. the announced chain replayed from both feeds (made lossless by waiting for the readers in the plugin call); non-trivial = reorg or shorten lands while >=1 request is parked or at/below a held store step, or a fetch error answered when remote height = local height, or a corrupted block served",
 		func(rt *rapid.T, c *stats.Case) { runCase(rt, c, known) })
 }
 
@@ -931,7 +1215,7 @@ func runCase(rt *rapid.T, c *stats.Case, known bool) {
 	defer r.stop()
 	e := r.e
 
-	genesisReplaced := false
+	genesisReplaced, heldReorged := false, false
 	knownGenesis := stats.Known(kfGenesis)
 	prev, _ := e.poll()
 	if !r.settle(prev, false) {
@@ -939,6 +1223,7 @@ func runCase(rt *rapid.T, c *stats.Case, known bool) {
 		return
 	}
 	for step := 0; step < steps; step++ {
+		e.poll() // a held store step begins asynchronously: its block is no longer in flight
 		v := e.view()
 		if v.viol != "" {
 			r.failIfViolated(c)
@@ -949,6 +1234,50 @@ func runCase(rt *rapid.T, c *stats.Case, known bool) {
 				return
 			}
 			v = e.view()
+		}
+		// schedule control of the store step's tail
+		ctl := rapid.IntRange(0, 99).Draw(rt, "ctl")
+		switch {
+		case v.held >= 0 && (len(v.pending) == 0 || ctl < 8):
+			if len(v.pending) == 0 {
+				c.Label("hold-released:nothing-parked")
+			} else {
+				c.Label("hold-released:by-script")
+			}
+			c.Fp("rel")
+			prev, _ = e.poll()
+			e.release("script", false)
+			if !r.settle(prev, true) {
+				inconclusive(c, r, "stalled-after-release")
+				return
+			}
+			continue
+		case v.held < 0 && !v.armed && ctl < 14:
+			kind := armAny
+			if rapid.Bool().Draw(rt, "armTip") {
+				kind = armTip
+			}
+			c.Fp("arm%d", kind)
+			c.Labelf("hold-armed:%s", map[int]string{armAny: "next-store", armTip: "next-store-reaching-source-tip"}[kind])
+			e.arm(kind)
+			continue
+		}
+		// while a step is held, 42% of the steps concentrate on the held block's neighbourhood: first a reorg at or
+		// just below it, afterwards an answer to the fetch of the next height or to a reorg check's latest-header request
+		if v.held < 0 {
+			heldReorged = false
+		}
+		heldReorg := v.held >= 0 && ctl < 50 && !heldReorged
+		var focus []pview
+		if v.held >= 0 {
+			c.Label("step-while-store-held")
+			if ctl < 50 && heldReorged {
+				for _, p := range v.pending {
+					if p.kind == kBlock && p.num == uint64(v.held)+1 || p.kind == kLatest && !p.poll {
+						focus = append(focus, p)
+					}
+				}
+			}
 		}
 		nblk := 0
 		for _, p := range v.pending {
@@ -961,8 +1290,13 @@ func runCase(rt *rapid.T, c *stats.Case, known bool) {
 		}
 		act := rapid.IntRange(0, 99).Draw(rt, "act")
 		switch {
-		case act < 64 && len(v.pending) > 0:
-			p := v.pending[rapid.IntRange(0, len(v.pending)-1).Draw(rt, "which")]
+		case !heldReorg && (act < 64 || len(focus) > 0) && len(v.pending) > 0:
+			from := v.pending
+			if len(focus) > 0 {
+				from = focus
+				c.Label("held:answer-near-held-block")
+			}
+			p := from[rapid.IntRange(0, len(from)-1).Draw(rt, "which")]
 			how := "ok"
 			var tm *tamper
 			var stale *core.Header
@@ -973,6 +1307,9 @@ func runCase(rt *rapid.T, c *stats.Case, known bool) {
 					how = "err"
 					if v.localLen > 0 && v.localLen == v.srcLen && p.num == uint64(v.localLen) {
 						c.NonTrivial("fetch-error-at-remote=local-height")
+					}
+					if v.held >= 0 && p.num == uint64(v.held)+1 {
+						c.Label("held:fetch-error-for-block-above-held")
 					}
 				case hd < 30 && p.num < uint64(v.srcLen):
 					how = "corrupt"
@@ -1001,6 +1338,9 @@ func runCase(rt *rapid.T, c *stats.Case, known bool) {
 				}
 				if how == "ok" && p.num >= uint64(v.srcLen) {
 					c.Label("answer-not-found")
+					if v.held >= 0 && p.num == uint64(v.held)+1 {
+						c.Label("held:fetch-error-for-block-above-held")
+					}
 				}
 			} else {
 				switch {
@@ -1028,6 +1368,12 @@ func runCase(rt *rapid.T, c *stats.Case, known bool) {
 					}
 				}
 			}
+			if v.held >= 0 {
+				c.Label("held:answer-" + string(p.kind))
+				if p.kind == kLatest && !p.poll && how != "err" {
+					c.Label("held:reorg-check-latest-answered")
+				}
+			}
 			c.Fp("a%c%d:%s", p.kind, p.num, how)
 			c.Label("answer-" + string(p.kind) + "-" + how)
 			if len(v.pending) > 1 && p.id != v.pending[0].id {
@@ -1045,6 +1391,14 @@ func runCase(rt *rapid.T, c *stats.Case, known bool) {
 			// source mutation
 			keep, fresh, what := v.srcLen, 0, "extend"
 			switch {
+			case heldReorg:
+				// reorg at or just below the held block; afterwards the source is as long as the node will be once
+				// the held step completes, one shorter or one longer
+				what = "reorg"
+				top := min(v.held, v.srcLen-1)
+				keep = top - rapid.IntRange(0, min(top, 2)).Draw(rt, "heldDepth")
+				fresh = max(1, v.held+1+rapid.IntRange(-1, 1).Draw(rt, "heldLen")-keep)
+				c.Label("held:reorg-near-held-height")
 			case act < 80 || v.srcLen < 1:
 				fresh = rapid.IntRange(1, 3).Draw(rt, "extend")
 			case act < 94:
@@ -1089,6 +1443,16 @@ func runCase(rt *rapid.T, c *stats.Case, known bool) {
 				if len(v.pending) > 0 {
 					c.NonTrivial(what + "-while-request-parked")
 				}
+				if v.held >= 0 {
+					c.Label("held:" + what)
+					heldReorged = true
+					if keep <= v.held {
+						c.NonTrivial(what + "-at-or-below-held-store-step")
+						if keep+fresh == v.held+1 {
+							c.Label("held:reorg-to-same-height-as-node")
+						}
+					}
+				}
 				nb := 0
 				for _, p := range v.pending {
 					if p.kind == kBlock {
@@ -1117,6 +1481,9 @@ func runCase(rt *rapid.T, c *stats.Case, known bool) {
 			e.mutate(rt, keep, fresh, what)
 			prev, _ = e.poll()
 		}
+	}
+	if e.release("end of script", true) {
+		c.Label("hold-released:end-of-script")
 	}
 	r.failIfViolated(c)
 	// a rollback that is never followed by growth cannot be told from a lagging replica (isReverting
@@ -1149,7 +1516,26 @@ func runCase(rt *rapid.T, c *stats.Case, known bool) {
 		}
 	}
 	modeSwitch := e.cancels
+	nHeld, heldRev, holdTO := e.holdsStarted, e.heldThenReverted, e.holdTimeouts
+	if e.reorgSeenWhileHeld > 0 {
+		c.Label("held:reorg-check-sees-replaced-head-while-store-held")
+	}
 	e.mu.Unlock()
+	if nHeld > 0 {
+		c.Label("store-step-held>=1")
+		if os.Getenv("C06_DUMP") != "" {
+			fmt.Fprintf(os.Stderr, "=====CASE\n%s\n", r.history())
+		}
+	}
+	if nHeld >= 2 {
+		c.Label("store-step-held>=2")
+	}
+	if heldRev > 0 {
+		c.Label("held-block-reverted-right-after-its-store-step")
+	}
+	if holdTO > 0 {
+		inconclusive(c, r, "hold-guard")
+	}
 	if nre > 0 {
 		c.Label("node-reverted>=1")
 	}
